@@ -56,6 +56,34 @@ let bar_line l =
          (n_of_int size))
   | _ -> "bad"
 
+let fancy_line l =
+  let opt s = if s = "~" then None else Some (bytes_of_hex s) in
+  let ni s = n_of_int (int_of_string s) in
+  match String.index_opt l ' ' with
+  | None -> "bad"
+  | Some i ->
+    let v = String.sub l 0 i = "v=1" in
+    let rest = String.sub l (i + 1) (String.length l - i - 1) in
+    let ops = List.filter_map (fun o ->
+      match words o with
+      | [] -> None
+      | ["U"; w; r; q; run; d; f] ->
+        Some (FUpdate { c_want = ni w; c_ready = ni r; c_queued = ni q; c_running = ni run; c_done = ni d; c_failed = ni f })
+      | ["S"; id; ms; d; c] -> Some (FStart (ni id, ni ms, opt d, opt c))
+      | ["O"; id; h] -> Some (FOutput (ni id, bytes_of_hex h))
+      | ["F"; id; d; c; hide; term; h] -> Some (FFinish (ni id, opt d, opt c, hide = "1", ni term, bytes_of_hex h))
+      | ["L"; h] -> Some (FLog (bytes_of_hex h))
+      | ["P"; ms; cols] -> Some (FPrint (ni ms, nat_of_int (int_of_string cols)))
+      | _ -> failwith "bad fancy op") (String.split_on_char ';' rest) in
+    show_outcome (fun (frames, st) ->
+      Printf.sprintf "frames=%s pending=%s ids=%s"
+        (String.concat "," (List.map hex_of_bytes frames))
+        (hex_of_bytes st.fs_pending)
+        (String.concat "," (List.map (fun t -> string_of_int (int_of_n t.ft_id)) st.fs_tasks)))
+      (f_run0 v ops)
+
+let lossy_line l = "ok " ^ hex_of_bytes (lossy (bytes_of_hex l))
+
 let status_line l = "ok " ^ string_of_int (int_of_n (decode_status (n_of_int (int_of_string (String.trim l)))))
 
 (* ---- scheduler: token stream parsing ---- *)
@@ -396,7 +424,7 @@ let suites : (string * (string -> string)) list =
     ("showincludes", showinc_line true); ("showincludes_pinned", showinc_line false);
     ("lastline", lastline_line); ("depfiledeps", depfiledeps_line);
     ("taskmsg", taskmsg_line true); ("taskmsg_pinned", taskmsg_line false);
-    ("truncate", truncate_line); ("bar", bar_line); ("status", status_line);
+    ("truncate", truncate_line); ("bar", bar_line); ("fancy", fancy_line); ("lossy", lossy_line); ("status", status_line);
     ("inv", inv_line); ("select", select_line); ("build", build_line);
     ("dbopen", dbopen_line); ("dbwrite", dbwrite_line);
     ("load", load_line); ("world", world_line); ("siphash", hash_line); ("dedup", dedup_line true); ("dedup_pinned", dedup_line false) ]
